@@ -302,6 +302,7 @@ where
     };
     let mut runner = TestRunner::new(cfg);
     let cell = RefCell::new(&mut *ctx);
+    let last_viol: RefCell<Option<Viol>> = RefCell::new(None);
     let result = runner.run(&strat, |c| {
         let mut g = cell.borrow_mut();
         let r = std::panic::catch_unwind(std::panic::AssertUnwindSafe(|| f(&mut **g, &c)));
@@ -309,6 +310,7 @@ where
             Ok(Ok(())) => Ok(()),
             Ok(Err(v)) => {
                 g.counting = false;
+                *last_viol.borrow_mut() = Some(v.clone());
                 Err(TestCaseError::fail(v.sig))
             }
             Err(p) => {
@@ -325,7 +327,10 @@ where
             let r = std::panic::catch_unwind(std::panic::AssertUnwindSafe(|| f(ctx, &shrunk)));
             let v = match r {
                 Ok(Err(v)) => v,
-                Ok(Ok(())) => viol("flaky", "shrunk case passed when re-run (non-deterministic failure)"),
+                Ok(Ok(())) => match last_viol.borrow().clone() {
+                    Some(v) => viol(format!("flaky|{}", v.sig), format!("failed during the search but passed when the shrunk case was re-run (non-deterministic); last failure: {}", v.what)),
+                    None => viol("flaky", "shrunk case passed when re-run (non-deterministic failure)"),
+                },
                 Err(p) => viol("harness-panic", panic_msg(&p)),
             };
             vec![Violation {
